@@ -10,8 +10,55 @@ VERIF = os.path.dirname(os.path.dirname(os.path.abspath(__file__)))
 OUT = os.path.join(VERIF, "coq", "Gen", "Tables.v")
 
 
+# names the extraction patterns look for themselves: never inlined
+_KEEP = {"T1", "T2", "T4", "RFC3261_BRANCH_PREFIX", "COOKIE", "NAMES", "CHARSET"}
+_SIMPLE = r"(?:-?\d[\d_]*(?:u8|u16|u32|u64|usize|i32|i64)?|0x[0-9a-fA-F_]+(?:u8|u16|u32|u64|usize)?|Duration::from_(?:secs|millis)\(\d[\d_]*\)|u16::MAX as usize|u32::MAX|\"[^\"\n]*\")"
+_CONSTS = None
+
+
+def _const_table():
+    """`const NAME: T = <simple literal>;` of every crate source file (a maintainer hoisting a literal into a named constant does
+    not change what the code says): name -> literal, only for names that have one value across the tree"""
+    global _CONSTS
+    if _CONSTS is not None:
+        return _CONSTS
+    vals = {}
+    for root, _, files in os.walk(os.path.join(REPO, "crates")):
+        if "/target" in root:
+            continue
+        for f in files:
+            if not f.endswith(".rs"):
+                continue
+            try:
+                text = open(os.path.join(root, f)).read()
+            except OSError:
+                continue
+            for m in re.finditer(r"\bconst\s+([A-Z][A-Z0-9_]*)\s*:\s*[^=;]+=\s*(" + _SIMPLE + r")\s*;", text):
+                vals.setdefault(m.group(1), set()).add(m.group(2))
+    _CONSTS = {k: v.pop() for k, v in vals.items() if len(v) == 1 and k not in _KEEP}
+    return _CONSTS
+
+
+def inline_consts(text):
+    table = _const_table()
+    if not table:
+        return text
+    names = sorted(table, key=len, reverse=True)
+    pat = re.compile(r"(?<![\w])(?:Self::|self::|super::|crate::(?:\w+::)*)?(" + "|".join(map(re.escape, names)) + r")\b(?!\s*:)")
+
+    def rep(m):
+        return table[m.group(1)]
+    out = []
+    for line in text.split("\n"):
+        if re.search(r"\bconst\s+[A-Z][A-Z0-9_]*\s*:", line):
+            out.append(line)          # the declaration itself stays
+        else:
+            out.append(pat.sub(rep, line))
+    return "\n".join(out)
+
+
 def src(rel):
-    return open(os.path.join(REPO, rel)).read()
+    return inline_consts(open(os.path.join(REPO, rel)).read())
 
 
 def must(m, what):
@@ -42,15 +89,10 @@ def coq_byte_list(b):
     return "[" + "; ".join("x%02x" % c for c in b) + "]"
 
 
-def gen():
-    out = []
-    w = out.append
-    w("(* GENERATED by tools/translate.py from /repo -- do not edit. *)")
-    w("From Coq Require Import List NArith.")
-    w("From Coq.Strings Require Import Byte.")
-    w("Import ListNotations.")
-    w("Open Scope N_scope.")
-    w("")
+FAILED = {}          # section -> error text of the last run
+
+
+def _tsx(w, src, must):
     # ---- transaction constants -------------------------------------------------------------
     t = src("crates/sip-core/src/transaction/mod.rs")
     for name in ("T1", "T2", "T4"):
@@ -62,19 +104,56 @@ def gen():
     factors = set()
     for f in ("client", "client_inv", "server", "server_inv"):
         body = src("crates/sip-core/src/transaction/%s.rs" % f)
-        found = re.findall(r"Instant::now\(\) \+ T1 \* (\d+)", body)
+        found = re.findall(r"Instant::now\(\)\s*\+\s*T1\s*\*\s*(\d+)", body)
         must(found, "T1 * k deadline in %s.rs" % f)
         factors.update(int(x) for x in found)
     if len(factors) != 1:
         raise RuntimeError("translator: transactions disagree on the timeout factor: %r" % sorted(factors))
     w("Definition tsx_timeout_factor : N := %d." % factors.pop())
     ci = src("crates/sip-core/src/transaction/client_inv.rs")
-    m = must(re.search(r"let timeout = Instant::now\(\) \+ (Duration::from_secs\(\d+\)|Duration::from_millis\(\d+\))", ci), "INVITE client completed-state lifetime")
+    m = must(re.search(r"let \w+ = Instant::now\(\)\s*\+\s*(Duration::from_secs\(\d+\)|Duration::from_millis\(\d+\))", ci), "INVITE client completed-state lifetime")
     w("Definition inv_completed_ms : N := %d." % duration_ms(m.group(1), "inv completed"))
     w("")
-    # ---- lookup tables (char classes) ------------------------------------------------------
+
+
+def _old_section(name):
+    if not os.path.exists(OUT):
+        return None
+    old = open(OUT).read()
+    a, b = "(* @@section %s *)\n" % name, "(* @@end %s *)\n" % name
+    if a in old and b in old:
+        return old[old.index(a) + len(a):old.index(b)]
+    return None
+
+
+def gen():
+    """every section is regenerated on its own; a section whose source forms can no longer be located keeps the text of the last
+    successful regeneration and is reported in FAILED (the properties that use it then rest on the correspondence run alone)"""
     import translate_tables
-    translate_tables.emit(w, src, must)
+    global _CONSTS
+    _CONSTS = None
+    FAILED.clear()
+    out = []
+    out.append("(* GENERATED by tools/translate.py from /repo -- do not edit. *)")
+    out.append("From Coq Require Import List NArith.")
+    out.append("From Coq.Strings Require Import Byte.")
+    out.append("Import ListNotations.")
+    out.append("Open Scope N_scope.")
+    out.append("")
+    sections = [("tsx", _tsx)] + translate_tables.SECTIONS
+    for name, fn in sections:
+        lines = []
+        try:
+            fn(lines.append, src, must)
+            body = "\n".join(lines) + "\n"
+        except Exception as e:      # noqa: a form that can no longer be located
+            FAILED[name] = repr(e)
+            body = _old_section(name)
+            if body is None:
+                raise
+        out.append("(* @@section %s *)" % name)
+        out.append(body.rstrip("\n"))
+        out.append("(* @@end %s *)" % name)
     return "\n".join(out) + "\n"
 
 
